@@ -7,6 +7,12 @@
 //	new Box() | new AnyBox() (same for Pair)  no type arguments / plain subclass of the generic: run, not judged
 //	#i.member = value   (property store)  value kind in {int, string, array, U [, W]}
 //	#i.set_member(value) (method whose body stores into the typed property)
+//	who executes the store (model.go routeOrder): top level | the target's own method | a plain function | a method of
+//	   an unrelated class | a static method of the generic class | a method of ANOTHER live instance #a (any
+//	   instantiation, also raw / subclass objects; directly, through the target's own setter, or in a closure)
+//	visibility of the typed member (visOrder): public | protected | private class variants (non-public members are
+//	   written only by code of the generic class itself and read back through a getter)
+//	syntax of the store (formOrder): $o->m = x | $o->{"m"} = x | $r = ($o->m = x) | foreach ([x] as $o->m) {}
 //
 // on any live instance is printed as one script, run on a fresh parser + VM, and every step's
 // accepted/rejected marker and the stored value are compared with a reference model that computes
@@ -788,6 +794,7 @@ func main() {
 	plans := []plan{
 		{"full+raw", fullRaw, 3},
 		{"nested-box+pair-2kinds", alpha{Generics: bp, Types: two, Vals: two, Routes: both, Nested: true}, 2},
+		{"box-4kinds+raw", alpha{Generics: bx, Types: four, Vals: four, Routes: both, Raw: true}, 4},
 		// who executes the store × visibility of the typed member (routeOrder / visOrder in model.go)
 		{"agents-full3-priv+raw", alpha{Generics: bp, Types: three, Vals: three, Routes: inClass, Raw: true, Vis: "priv"}, 3},
 		{"agents-full3-prot+raw", alpha{Generics: bp, Types: three, Vals: three, Routes: inClass, Raw: true, Vis: "prot"}, 3},
@@ -796,7 +803,6 @@ func main() {
 		{"forms-box3-pub", alpha{Generics: bx, Types: three, Vals: three, Routes: routeOrder, Stores: formOrder}, 3},
 		{"forms-box3-prot", alpha{Generics: bx, Types: three, Vals: three, Routes: inClass, Stores: formOrder, Vis: "prot"}, 3},
 		{"forms-box3-priv", alpha{Generics: bx, Types: three, Vals: three, Routes: inClass, Stores: formOrder, Vis: "priv"}, 3},
-		{"box-4kinds+raw", alpha{Generics: bx, Types: four, Vals: four, Routes: both, Raw: true}, 4},
 		{"pair-2kinds+raw", alpha{Generics: []string{"Pair"}, Types: two, Vals: two, Routes: both, Raw: true}, 4},
 		{"agents-box2-pub", alpha{Generics: bx, Types: two, Vals: two, Routes: routeOrder}, 4},
 		{"agents-box3-priv", alpha{Generics: bx, Types: three, Vals: three, Routes: inClass, Vis: "priv"}, 4},
@@ -947,7 +953,8 @@ func main() {
 	c.Set("histories_with_earlier_deviation_not_re-reduced", later)
 	c.Set("reduction_runs", redRuns)
 	c.Assume("sequential histories only: the concurrent clause of the statement is not decided by this check (extension point in main.go)")
-	c.Assume("members typed with the type parameter are: a public property, and a method whose body stores its argument into that property; whether a method *parameter* declared T is checked before the body runs is not asserted (both orders reject the call)")
+	c.Assume("members typed with the type parameter are: a public / protected / private property, and a method whose body stores its argument into that property; whether a method *parameter* declared T is checked before the body runs is not asserted (both orders reject the call)")
+	c.Assume("a store is only enumerated from code that is allowed to touch the member (non-public members: methods, static methods and closures of the generic class itself, of any instantiation); who may access a member is not C19's subject. The type arguments of the instance whose method executes the store never enter the expectation")
 	c.Assume("value kinds int/string/array/instances of two user classes; PHP-style coercions (numeric strings, bool, float, null) are outside the enumerated value pool; docs/array_methods.md documents strict rejection for generic containers")
 	if len(plans) > 0 && (outcomes["A"] == 0 || outcomes["R"] == 0 || outcomes["N"] == 0) {
 		c.HarnessError("vacuous: accepted=%d rejected=%d new=%d", outcomes["A"], outcomes["R"], outcomes["N"])
@@ -957,7 +964,7 @@ func main() {
 		names = append(names, fmt.Sprintf("%s<=%d", p.name, p.maxLen))
 	}
 	sort.Strings(names)
-	c.Finish(total, total+redRuns, total, "every op history over {new Box<T>, new Pair<K,V>, typed property store, typed method store} on live instances, plans "+strings.Join(names, ", ")+"; each history one script on a fresh parser+VM; every step compared with the per-instance model; + single-instance table over 5 value kinds")
+	c.Finish(total, total+redRuns, total, "every op history over {new Box<T>, new Pair<K,V>, raw/subclass/nested instantiations, typed store × executing code (top level, own method, function, unrelated class, static method, method/closure of another live instance) × member visibility × store syntax} on live instances, plans "+strings.Join(names, ", ")+"; each history one script on a fresh parser+VM; every step compared with the per-instance model; + single-instance table (visibility × route × store syntax) over 5 value kinds")
 }
 
 func replay(c *ev.Check) {
